@@ -5,6 +5,7 @@ Model: `negotiate` (Model/Block.lean) + the RFC wire length (Spec/Wire.lean).
 -/
 import CoapLite.Lemmas.BlockFits
 import CoapLite.Lemmas.BlockFitsRange
+import CoapLite.Lemmas.BlockClamp
 import CoapLite.Lemmas.Shape.Block
 import CoapLite.Lemmas.Shape.BlockValue
 import CoapLite.Lemmas.Shape.Request
@@ -159,6 +160,68 @@ theorem unfragmented_fits (p : Packet) (M size : Nat)
     (hneg : negotiate none size p.payload.length M = .ok none) :
     wireLen (toMsg p) ≤ M :=
   Block.unfragmented_fits p M size hsz hneg
+
+/-! ### D21: a follow-up may name ANY block size; what it is served never exceeds the negotiated one
+
+`followup_fits` / `followup_fits_over_the_range` take `chunk.length ≤ b.size` (the block being served is no
+larger than the negotiated size) as a hypothesis. Nothing in the handler used to guarantee it: a follow-up
+naming a larger size was served at that size (D21, fixed in /repo d3955bc). The handler now stores the
+negotiated exponent with the cached response; the theorems below derive the hypothesis from that state. -/
+
+/-- the Block2 stage, any request: a reply served from the cache carries at most `2^(x+4)` payload bytes,
+`x` the stored exponent, and they are the bytes at the offset the client named – also when the client
+named a LARGER size (then the same offset at the negotiated size) -/
+theorem follow_up_of_any_size_served_within (req : Request) (st : BlockState) (b2 : BlockValue) (x : Nat)
+    (req' : Request) (st' : BlockState)
+    (hb : firstBlock req.message block2Num = some b2) (hx : st.cachedSzx = some x)
+    (h : handleBlock2 req st = (req', st', .ok true)) :
+    ∃ cached resp', st.cachedResponse = some cached ∧ req'.response = some resp' ∧
+      resp'.payload.length ≤ 2 ^ (x + 4) ∧
+      resp'.payload = (cached.payload.drop (b2.num * b2.size)).take (2 ^ (min b2.szx x + 4)) :=
+  handleBlock2_served_within req st b2 x req' st' hb hx h
+
+/-- … and the stored exponent IS the negotiated one in every state the per-key core can reach: after ANY
+sequence of calls, a follow-up of ANY size served from the cache carries at most as many payload bytes as
+the size `b` that was negotiated for exactly this cached response under this budget -/
+theorem served_within_negotiated_in_any_history (M : Nat) (evs : List Ev) (req : Request) (b2 : BlockValue)
+    (req' : Request) (st' : BlockState)
+    (hb : firstBlock req.message block2Num = some b2)
+    (h : handleBlock2 req (finalState M BlockState.default evs) = (req', st', .ok true)) :
+    ∃ cached resp' lb size b,
+      (finalState M BlockState.default evs).cachedResponse = some cached ∧ req'.response = some resp' ∧
+      (∀ r, lb = some r → BvOk r) ∧ computeMessageSize cached = .ok size ∧
+      cached.getOption block2Num = none ∧
+      negotiate lb (size + tokenReserve cached) cached.payload.length M = .ok (some b) ∧
+      resp'.payload.length ≤ b.size ∧
+      resp'.payload = (cached.payload.drop (b2.num * b2.size)).take (2 ^ (min b2.szx b.szx + 4)) :=
+  Block.served_within_negotiated_in_any_history M evs req b2 req' st' hb h
+
+/-- … hence it fits the budget over the property's own range, with NO hypothesis about the size of the
+served block: `followup_fits_over_the_range` with `hc` discharged by the state of the handler -/
+theorem follow_up_of_any_size_fits (M : Nat) (evs : List Ev) (req : Request) (b2 : BlockValue)
+    (req' : Request) (st' : BlockState)
+    (hb : firstBlock req.message block2Num = some b2)
+    (h : handleBlock2 req (finalState M BlockState.default evs) = (req', st', .ok true)) :
+    ∃ cached resp' size, (finalState M BlockState.default evs).cachedResponse = some cached ∧
+      req'.response = some resp' ∧ computeMessageSize cached = .ok size ∧
+      ∀ (b' : BlockValue) (bs tok : Bytes), cached.options.Sorted → (∀ kv ∈ cached.options, kv.1 ≤ 65535) →
+        (size - cached.payload.length) + tok.length + 28 ≤ M + cached.token.length →
+        BvOk b' → b'.enc = .ok bs → tok.length ≤ 8 → cached.token.length ≤ 8 →
+        wireLen (toMsg { (cached.setOption block2Num [bs]) with payload := resp'.payload, token := tok }) ≤ M := by
+  obtain ⟨cached, resp', lb, size, b, hc, hr, hlb, hsz, hno, hn, hlen, _⟩ :=
+    Block.served_within_negotiated_in_any_history M evs req b2 req' st' hb h
+  refine ⟨cached, resp', size, hc, hr, hsz, ?_⟩
+  intro b' bs tok hs hk hrange hb' hbs htok hptok
+  exact Block.followup_fits_range cached lb M size b b' bs resp'.payload tok hs hk hno hlb hsz hn hrange
+    hb' hbs hlen htok hptok
+
+/-- renumbering: block 1 at size 1024 under a negotiated size of 32 is block 32 at size 32; a number that
+no longer fits 20 bits is refused (4.00) -/
+example : clampBlock { num := 1, more := false, szx := 6 } (some 1) =
+    .ok { num := 32, more := false, szx := 1 } := by decide
+example : clampBlock { num := 40000, more := false, szx := 6 } (some 1) = badRequest := by decide
+example : clampBlock { num := 3, more := true, szx := 0 } (some 1) =
+    .ok { num := 3, more := true, szx := 0 } := by decide
 
 /-! non-vacuity: budget 64, overhead 6+… -/
 example : negotiate none 106 100 64 = .ok (some { num := 0, more := true, szx := 1 }) := by decide
